@@ -91,7 +91,7 @@ impl PoolImpl {
             s2n_waiting: self
                 .s2n_waiting_parent_cert
                 .iter()
-                .map(|(p, c)| (p.clone(), c.clone()))
+                .flat_map(|(p, cs)| cs.iter().map(move |c| (p.clone(), c.clone())))
                 .collect(),
         }
     }
